@@ -45,6 +45,27 @@ Theorem C09_crash : forall old ops k part, wf_ops ops ->
 Proof. exact crash_safe. Qed.
 Print Assumptions C09_crash.
 
+(* the commit-point side: once the commit operation has taken effect, even partly (journal
+   unlinked, truncated, or its header zeroed from the first byte on), what is left is not a
+   hot journal at any later crash point - the reader reads the file, now the post-image *)
+Theorem C09_committed : forall old ops k part, wf_ops ops ->
+  let s := crash old ops k part in cdone s = true -> cold s.
+Proof. exact committed_cold. Qed.
+Print Assumptions C09_committed.
+
+(* together: at every crash point of every transaction, with every torn last write, the reader
+   faces one of three situations - a hot journal (every read refused), an untouched database
+   file (the pre-image, whatever the journal looks like), or a committed one with no hot journal *)
+Theorem C09_every_crash_state : forall old ops k part, wf_ops ops ->
+  let s := crash old ops k part in
+  (exists j, cj s = Some j /\ valid_journal j = true) \/ (cmod s = false /\ cdone s = false) \/ (cdone s = true /\ cold s).
+Proof.
+  intros old ops k part Hwf s. destruct (cdone s) eqn:Ed.
+  - right. right. split; [reflexivity|]. exact (committed_cold old ops k part Hwf Ed).
+  - destruct (cmod s) eqn:Em; [left; exact (crash_safe old ops k part Hwf Em Ed)|right; left; split; reflexivity].
+Qed.
+Print Assumptions C09_every_crash_state.
+
 (* non-vacuity: a two-phase transaction with a spill, killed in the middle of
    a database write after the second phase was appended *)
 Definition sample_sector : list byte :=
